@@ -193,6 +193,7 @@ type Result struct {
 	Probes     Counters
 	Log        []string
 	ClockJumps int
+	Spin       string // set when a capped run ended in a tight loop of one task: "task|func1,func2,..."
 }
 
 // Counters is a small name->count table kept as a slice (no map: task goroutines update it
@@ -250,6 +251,12 @@ type Sim struct {
 	hash      uint64
 	quiesceT  *Task
 	smallLock int32
+	ring      [256]ringEnt
+}
+
+type ringEnt struct {
+	task int
+	pc   uintptr
 }
 
 // cur is read by tasks without synchronisation visible to the race detector; the scheduler's
@@ -401,6 +408,7 @@ func (s *Sim) loop(mainT *Task) {
 		}
 		if s.steps >= s.cfg.MaxSteps {
 			r.Outcome = "capped"
+			r.Spin = s.spinWitness()
 			return
 		}
 		elig := s.eligible()
@@ -440,6 +448,39 @@ func (s *Sim) loop(mainT *Task) {
 		}
 		s.resumeTask(elig[k])
 	}
+}
+
+// spinWitness inspects the last steps of a capped run: one task cycling through a handful of
+// sites is a tight loop (a spinning poller, a wait loop that can never end).
+func (s *Sim) spinWitness() string {
+	if s.steps < len(s.ring) {
+		return ""
+	}
+	task := s.ring[0].task
+	pcs := map[uintptr]bool{}
+	for _, e := range s.ring {
+		if e.task != task {
+			return ""
+		}
+		pcs[e.pc] = true
+	}
+	if len(pcs) > 16 {
+		return ""
+	}
+	fns := map[string]bool{}
+	for pc := range pcs {
+		f := SiteString(pc)
+		if i := strings.LastIndex(f, " "); i >= 0 {
+			f = f[i+1:]
+		}
+		fns[f] = true
+	}
+	var names []string
+	for f := range fns {
+		names = append(names, f)
+	}
+	sort.Strings(names)
+	return s.tasks[task].Name + "|" + strings.Join(names, ",")
 }
 
 // policy picks an index into elig (or len(elig) for "advance the clock"). Generation mode only.
@@ -511,6 +552,7 @@ func (s *Sim) resumeTask(t *Task) {
 	if t != s.last {
 		s.res.Switches++
 	}
+	s.ring[s.steps%len(s.ring)] = ringEnt{t.ID, t.site}
 	// trace + hash
 	h := s.hash
 	h = (h ^ uint64(t.ID)) * 1099511628211
